@@ -130,7 +130,7 @@ func collectAccess(fn *ssa.Function, roots []ssa.Value, acc *fieldAccess, seen m
 }
 
 func checkC06(c *core.Ctx, r *core.Report) {
-	r.Explanation = "[ORDER (shared with C05) — every compareValues call sits inside a whole loop over the sort elements] [ACCUM — every min/max fold into a struct field reads the field it writes (a running extreme is not recomputed from another field)] C06 (pipeline commands mean the same however the stream is chunked), replay precondition only: when a two-pass command finishes its first pass every upstream processor is rewound and must start from its initial state. " +
+	r.Explanation = "[(7) BATCHSTART — a processor field that the per-row loop of Process carries from row to row is not re-initialised to a fixed value at the start of Process] [ORDER (shared with C05) — every compareValues call sits inside a whole loop over the sort elements] [ACCUM — every min/max fold into a struct field reads the field it writes (a running extreme is not recomputed from another field)] C06 (pipeline commands mean the same however the stream is chunked), replay precondition only: when a two-pass command finishes its first pass every upstream processor is rewound and must start from its initial state. " +
 		"(1) REWIND — for every type implementing the package's `processor` interface, each field of the processor (or of the options object it points to) that the Process cone both writes and reads (cross-batch state) is re-assigned in the Rewind cone, unless the type is cached-final (GetFinalResultIfExists can return true: it replays its stored result) or a two-pass accumulator (Rewind sets a flag that Process reads), or the field is a memo whose stored value does not depend on the input batch (compiled regular expressions); " +
 		"(4) the same for the DataProcessor wrapper itself (its merge counters are value fields of the wrapper: they must be reset on the wrapper's own copy); " +
 		"(5) in the head command every comparison or subtraction that involves the configured row limit also involves the count of rows already sent; " +
@@ -276,6 +276,8 @@ func checkC06(c *core.Ctx, r *core.Report) {
 			}
 		}
 	}
+
+	c06BatchStart(c, r, impls, method)
 
 	// ---------------------------------------------------------------- (6) where the parallel section of a chain ends
 	{
@@ -779,4 +781,104 @@ func finalGuardFields(fn *ssa.Function) map[*types.Var]ssa.Instruction {
 		}
 	}
 	return out
+}
+
+// c06BatchStart — (7) BATCHSTART: a processor is called once per batch, and a value it carries from row to row (a
+// field that the per-row loop of Process both reads and writes) is carried from the last row of one batch to the first
+// row of the next as well.  Re-initialising such a field at the start of Process — an unconditional store of a
+// constant that dominates the row loop — makes the batch boundary visible: the same rows give different output when
+// they arrive cut differently.  (Initial values belong in the constructor or in Rewind.)
+func c06BatchStart(c *core.Ctx, r *core.Report, impls []*types.Named, method func(named *types.Named, name string) *ssa.Function) {
+	n := 0
+	for _, named := range impls {
+		process := method(named, "Process")
+		if process == nil || process.Blocks == nil {
+			continue
+		}
+		recv := ssa.Value(process.Params[0])
+		loops := core.Loops(process)
+		// fields of the receiver read and written inside some loop
+		type acc struct{ r, w bool }
+		carried := map[*types.Var]*acc{}
+		fieldOf := func(addr ssa.Value) *types.Var {
+			fa, ok := addr.(*ssa.FieldAddr)
+			if !ok || fa.X != recv {
+				return nil
+			}
+			return core.FieldOfAddr(fa)
+		}
+		for _, b := range process.Blocks {
+			if core.InnermostLoop(loops, b) == nil {
+				continue
+			}
+			for _, in := range b.Instrs {
+				switch x := in.(type) {
+				case *ssa.Store:
+					if f := fieldOf(x.Addr); f != nil {
+						if carried[f] == nil {
+							carried[f] = &acc{}
+						}
+						carried[f].w = true
+					}
+				case *ssa.UnOp:
+					if f := fieldOf(x.X); f != nil {
+						if carried[f] == nil {
+							carried[f] = &acc{}
+						}
+						carried[f].r = true
+					}
+				}
+			}
+		}
+		var fields []*types.Var
+		for f, a := range carried {
+			if a.r && a.w {
+				fields = append(fields, f)
+			}
+		}
+		sort.Slice(fields, func(i, j int) bool { return fields[i].Name() < fields[j].Name() })
+		for _, f := range fields {
+			n++
+			construct := fmt.Sprintf("%s:row-carried(%s)-not-reinitialised-per-batch", named.Obj().Name(), f.Name())
+			var bad *ssa.Store
+			for _, b := range process.Blocks {
+				if core.InnermostLoop(loops, b) != nil {
+					continue
+				}
+				for _, in := range b.Instrs {
+					st, ok := in.(*ssa.Store)
+					if !ok || fieldOf(st.Addr) != f {
+						continue
+					}
+					if _, isK := st.Val.(*ssa.Const); !isK {
+						// a value computed from the field itself or from the batch is not a re-initialisation to a fixed start
+						if _, isPhi := st.Val.(*ssa.Phi); !isPhi {
+							continue
+						}
+						allConst := true
+						for _, e := range st.Val.(*ssa.Phi).Edges {
+							if _, k := e.(*ssa.Const); !k {
+								allConst = false
+							}
+						}
+						if !allConst {
+							continue
+						}
+					}
+					// unconditional: the store's block dominates the header of a loop that carries the field
+					for _, lp := range loops {
+						if b.Dominates(lp.Header) && b != lp.Header {
+							bad = st
+						}
+					}
+				}
+			}
+			if bad != nil {
+				r.Violation("LIVE", construct, c.Pos(bad.Pos()), fmt.Sprintf("%s.Process sets %s to a fixed value at the start of every batch although the per-row loop carries it from row to row: the value the last row of one batch left is lost for the first row of the next, so the command's output depends on where the stream was cut into batches", named.Obj().Name(), f.Name()))
+			} else {
+				r.OK("LIVE", construct, c.Pos(process.Pos()), "not assigned a fixed value on the way into the row loop")
+			}
+		}
+	}
+	r.Floor("LIVE", "row-carried processor fields", n, 3)
 }
